@@ -40,22 +40,47 @@ var globals = native.Declarations{
 	"h":   (*native.HTML)(nil),
 }
 
-// varsFor binds every variable to (a value built from) the string v.
-func varsFor(v string) map[string]any {
-	p := PS{A: v, B: 7}
-	var e error = errors.New(v)
-	var a any = v
+// vec is one value assignment: three independent strings. Every string-carrying variable is
+// built from one of them (its SLOT), so that the holes of one document show DIFFERENT values —
+// one value can establish state (a `?` in a URL, a trailing truncated UTF-8 sequence) and the
+// next one carry the breaker.
+type vec [3]string
+
+// slotOf: which component of a vec a variable is built from
+var slotOf = map[string]int{"s": 0, "ns": 1, "st": 2, "er": 1, "any": 2, "ls": 0, "arr": 1, "ms": 2, "ps": 0, "pp": 1, "bs": 0}
+
+// varsFor binds every variable to (a value built from) its component of v.
+func varsFor(v vec) map[string]any {
+	p := PS{A: v[0], B: 7}
+	pq := PS{A: v[1], B: 7}
+	var e error = errors.New(v[1])
+	var a any = v[2]
 	return map[string]any{
-		"s": v, "ns": NS(v), "st": Str{v}, "er": &e, "any": &a,
+		"s": v[0], "ns": NS(v[1]), "st": Str{v[2]}, "er": &e, "any": &a,
 		"n": 42, "f": 1.5, "b": true,
-		"ls": []string{v, "k"}, "arr": [2]string{v, v}, "ms": map[string]string{v: v},
-		"ps": p, "pp": &p, "bs": []byte(v), "h": native.HTML("<i>t</i>"),
+		"ls": []string{v[0], "k"}, "arr": [2]string{v[1], v[1]}, "ms": map[string]string{v[2]: v[2]},
+		"ps": p, "pp": &pq, "bs": []byte(v[0]), "h": native.HTML("<i>t</i>"),
 	}
 }
 
-// benign is the marker shown in the reference run; it survives every escaper unchanged and
-// does not occur in the generated template text.
-const benign = "xq7x"
+// benign is the assignment of the reference run: one marker per slot; the markers survive every
+// escaper unchanged and do not occur in the generated template text.
+var benign = vec{"xq1x", "xq2x", "xq3x"}
+
+func same(v string) vec { return vec{v, v, v} }
+
+// hasMarker: s contains one of the benign markers
+func hasMarker(s string) bool {
+	return strings.Contains(s, benign[0]) || strings.Contains(s, benign[1]) || strings.Contains(s, benign[2])
+}
+
+// substitute replaces each marker by the slot's value (after f)
+func substitute(s string, v vec, f func(string) string) string {
+	for i := range benign {
+		s = strings.ReplaceAll(s, benign[i], f(v[i]))
+	}
+	return s
+}
 
 // the context-breaking dictionary
 var dictionary = []string{
@@ -77,6 +102,29 @@ var dictionary = []string{
 }
 
 var fragments = []string{`"`, `'`, "`", `\`, "<", ">", "&", "/", "=", " ", "\n", "\r", "\t", ";", ":", "{", "}", "(", ")", "*", "-", "!", "#", "%", "$", "\x00", "\xff", "\xe2\x80", "\xa8", "\u2028", "\u2029", "é", "a", "b", "script", "style", "x"}
+
+// values that establish state for what follows them: URL query / fragment / srcset state, an open
+// character reference, a truncated UTF-8 sequence, a pending escape
+var stateValues = []string{"/p?x=1", "?", "x?y", "a?b=c&", "/p?x=1&", "?a=b&c=d", "#f", "a#", "a,b", ",", "a, ", "/a b?c", "&", "&amp", "&#3", "&#", "&l",
+	"\xe2", "\xe2\x80", "\xc3", "\xf0\x9f", "\\", "<", "</", "<!-", "-", "--", "]]", "*", "/", "$", "%", "%2", "%c3", "\r", "http:", "javascript", "a:", "//"}
+
+// randVec draws a value assignment: the same value in every slot, or a state-establishing value
+// in one slot and breakers in the others, or three independent values.
+func randVec(r *proto.Rand) vec {
+	switch r.Intn(5) {
+	case 0, 1:
+		return same(randValue(r))
+	case 2, 3:
+		v := vec{randValue(r), randValue(r), randValue(r)}
+		v[r.Intn(3)] = stateValues[r.Intn(len(stateValues))]
+		if r.Intn(3) == 0 {
+			v[r.Intn(3)] = stateValues[r.Intn(len(stateValues))]
+		}
+		return v
+	default:
+		return vec{randValue(r), randValue(r), randValue(r)}
+	}
+}
 
 // randValue draws a random value: dictionary entry, concatenation of breaking fragments, or random Unicode.
 func randValue(r *proto.Rand) string {
